@@ -332,3 +332,62 @@ func vRunUnordered(tag string, src interface{}) {
 	vCheckUnordered(tag, err, r)
 	vReach("end")
 }
+
+// cross-field group clauses come last, after every field clause of the whole call: nested objects and
+// slice elements with violated groups, followed by later fields (and later elements) that fail too
+type vW11 struct {
+	In vG2    `valid:"exist"`
+	Z  string `valid:"r1"`
+	L  []vG2  `valid:"exist"`
+	Y  string `valid:"required|need Y,r2"`
+}
+
+func H_C02_groups_last_nested() {
+	o := &vW11{In: vG2{A: vStr("In.A"), Z: "z"}, Z: vStr("Z"), L: []vG2{{B: vStr("L0.B"), Z: "z"}, {A: vStr("L1.A"), Z: "z"}}, Y: vStr("Y")}
+	known := vGlobalRules()
+	err := Struct(o)
+	r := vNewRef()
+	r.global = known
+	r.top(o)
+	// the field part is ordered; the group clauses (up to three here) follow in any order
+	want := ""
+	j := 0
+	for _, e := range r.out {
+		if !e.isCall {
+			want += e.text
+			continue
+		}
+		if j < len(vULog) && vULog[j].failed {
+			want += vULog[j].clause
+		}
+		j++
+	}
+	gs := r.groupClauses()
+	got := ""
+	if err != nil {
+		got = err.Error() + ErrEndFlag
+	}
+	n := len(want)
+	for _, g := range gs {
+		n += len(g)
+	}
+	vAssert(j == len(vULog), "C02 groups last: rule evaluations")
+	vAssert(len(got) == n && len(got) >= len(want) && got[:len(want)] == want, "C02 groups last: every field clause of the call precedes every group clause")
+	vReach("end")
+}
+
+// required on arrays: a zero-valued array is empty, an array with a non-zero element is not
+type vW12 struct {
+	R [2]int  `valid:"required,r1"`
+	S [1]vIn  `valid:"required"`
+	E [0]int  `valid:"required|need E"`
+	B [3]byte `valid:"required"`
+}
+
+func H_C02_required_arrays() {
+	o := &vW12{R: [2]int{0, vndInt("R1")}, B: [3]byte{vndUint8("B0")}}
+	if vndBool("S") {
+		o.S[0] = vInVal("S0")
+	}
+	vRun("C02 required on arrays", o)
+}
